@@ -93,9 +93,22 @@ def setPointRange (r : TSRange) (s e : TSPoint) : TSRange :=
   let e := if e.row = 0 ∧ e.column = 0 then POINT_MAX else e
   if point_gt s e then r else { r with start_point := s, end_point := e }
 
+/-- Port of `ts_query_cursor__node_precedes_range` (commit 5d2fccd): a zero-width node exactly at
+the start of the range is inside it, as for `range_intersects`. -/
+def nodePrecedesRange (n inc : TSRange) : Bool :=
+  if n.start_byte = n.end_byte then
+    decide (n.end_byte < inc.start_byte) || point_lt n.end_point inc.start_point
+  else
+    decide (n.end_byte ≤ inc.start_byte) || point_lte n.end_point inc.start_point
+
+/-- The expression the helper replaced (selected by the check when the source anchor
+`ts_query_cursor__node_precedes_range` is missing from query.c, i.e. the fix was reverted). -/
+def nodePrecedesRangeOld (n inc : TSRange) : Bool :=
+  decide (n.end_byte ≤ inc.start_byte) || point_lte n.end_point inc.start_point
+
 /-- Port of the `node_outside_of_range` test in `ts_query_cursor_next_capture`. -/
 def captureOutside (n inc : TSRange) : Bool :=
-  (decide (n.end_byte ≤ inc.start_byte) || point_lte n.end_point inc.start_point) ||
+  nodePrecedesRange n inc ||
   (decide (n.start_byte ≥ inc.end_byte) || point_gte n.start_point inc.end_point)
 
 def PLt (p q : TSPoint) : Prop := p.row < q.row ∨ (p.row = q.row ∧ p.column < q.column)
